@@ -576,6 +576,10 @@ def fieldlimit_cases():
     for form in ("TKEY.key", "TKEY.other", "TSIG.mac", "TSIG.other", "HIP.key", "HIP.hit"):
         for n in (255, 256, 65535, 65536, 70000):
             out.append({"form": form, "n": n})
+    # a numeric field whose range is set by the wire width: LOC altitude is (cm + 10^7) in 32 bits
+    lo, hi = -10_000_000, 2**32 - 1 - 10_000_000
+    for cm in (lo, lo - 1, lo + 1, 0, -1, hi, hi - 1, hi + 1, hi + 10_000_000, hi + 10_000_001, 2**32, 2**32 - 1, 10**12):
+        out.append({"form": "LOC.altitude", "n": cm})
     return out
 
 
@@ -586,6 +590,27 @@ def run_fieldlimit(case):
     import dns.rdata
 
     n = case["n"]
+    if case["form"] == "LOC.altitude":
+        sign = "-" if n < 0 else ""
+        text = f"10 0 0.000 N 20 0 0.000 E {sign}{abs(n) // 100}.{abs(n) % 100:02d}m 1m 10000m 10m"
+        fits = 0 <= n + 10_000_000 <= 2**32 - 1
+        try:
+            rd = dns.rdata.from_text(1, 29, text)
+        except dns.exception.DNSException:
+            if fits:
+                raise Violation("fieldlimit", f"LOC altitude {n} cm fits the 32-bit field but the text {text!r} was refused", "refused:LOC.altitude")
+            return {"nontrivial": True, "classes": ["fl-refused", "fl-loc-refused"]}
+        try:
+            w = rd.to_wire()
+            rd.to_generic().to_text()
+        except Exception as e:
+            raise Violation("totality", f"LOC: from_text accepted an altitude of {n} cm ({text!r}) but encoding raised {type(e).__name__}: {e}", "fieldlimit:LOC.altitude")
+        if not fits:
+            raise Violation("fieldlimit", f"LOC: an altitude of {n} cm was accepted although the 32-bit field cannot express it", "accepted:LOC.altitude")
+        back = dns.rdata.from_wire(1, 29, w, 0, len(w))
+        if back != rd or dns.rdata.from_text(1, 29, back.to_text()) != rd:
+            raise Violation("roundtrip", f"LOC: altitude {n} cm differs after text -> wire -> record -> text", "fieldlimit-roundtrip:LOC.altitude")
+        return {"nontrivial": True, "classes": ["fl-accepted", "fl-loc-accepted"]}
     blob = bytes((i * 7 + 3) & 0xFF for i in range(n))
     b64 = base64.b64encode(blob).decode()
     small = "AQID"
@@ -637,7 +662,7 @@ def parts(tier):
         Part("textmut", run_textmut, strategy=textmut_cases(TEXT_TYPES), n={"quick": 300 * n_types, "thorough": 4000 * n_types},
              require={"mut-accepted": 2000, "mut-rejected": 2000}, shards={"quick": 16, "thorough": 16}),
         Part("fieldlimit", run_fieldlimit, cases=fieldlimit_cases, shards={"quick": 4, "thorough": 4},
-             require={"fl-accepted": 10, "fl-refused": 10}),
+             require={"fl-accepted": 10, "fl-refused": 10, "fl-loc-accepted": 6, "fl-loc-refused": 7}),
         Part("namelimit", run_namelimit, strategy=namelimit_cases(), n={"quick": 3000, "thorough": 60000},
              require={"full:255": 300, "full:256": 100, "accepted": 500, "too-long-refused": 250}, shards={"quick": 4, "thorough": 8}),
     ]
